@@ -101,6 +101,8 @@ class StopWorld(World):
             sysd["lo"], sysd["hi"] = -w, round(w * rng.choice([1, 2]), 3)
         sysd["rng_seed"] = rng.randrange(2 ** 31)
         sysd["show_pbar"] = rng.random() < 0.7
+        sysd["interfere"] = rng.random() < 0.2
+        sysd["iterprox"] = rng.random() < 0.25
         if kind in ("power", "maxeig"):
             r = rng.randint(1, n)
             ev = sorted([round(rng.uniform(0.1, 3), 3) for _ in range(r)] + [0.0] * (n - r), reverse=True)
@@ -126,6 +128,8 @@ class StopWorld(World):
             sysd["sigma"] = float(round(10 ** rng.uniform(-3, 0), 5))
             sysd["steps"] = rng.choice(["scalar", "scalar", "array"])
             sysd["gamma"] = rng.choice(["none", "none", "dual"])
+            sysd["theta"] = rng.choice([1, 1, 1, 0.5, 0])
+            sysd["pdhg_form"] = rng.choice(["ls", "ls", "analysis_l1"])
         if kind == "sdmm":
             sysd["nL"] = rng.randint(0, 2)
             # square constraint matrices: the only shape SDMM's update supports
@@ -204,7 +208,7 @@ class StopWorld(World):
         MH = M.conj().T.copy()
         np.random.seed(sysd["rng_seed"])
 
-        def mk_prox(shape):
+        def mk_prox0(shape):
             if gk == "l1":
                 return sp.prox.L1Reg(shape, lam)
             if gk == "l2":
@@ -212,6 +216,12 @@ class StopWorld(World):
             if gk == "box":
                 return sp.prox.BoxConstraint(shape, lo, hi)
             return sp.prox.NoOp(shape)
+
+        def mk_prox(shape):
+            p0 = mk_prox0(shape)
+            if sysd.get("iterprox") and kind in ("gm", "pdhg"):
+                return common.iterative_prox(p0, stats)
+            return p0
 
         if sysd.get("x0kind") == "exact" and kind in ("gm", "cg", "pdhg", "newton"):
             if kind == "cg":
@@ -250,6 +260,8 @@ class StopWorld(World):
             x = x0.copy()
 
             def gradf(v):
+                if sysd.get("interfere"):
+                    common.run_other_solvers(v.shape, v.dtype, stats)
                 return MH @ (M @ v - y)
             S.alg = A_.GradientMethod(gradf, x, sysd["c"] / L, proxg=mk_prox([n]) if gk != "none" else None,
                                       accelerate=sysd["accelerate"], max_iter=mi, tol=0)
@@ -267,7 +279,11 @@ class StopWorld(World):
             x = codec.dec(sysd["x0"]).astype(Amat.dtype)
             if sysd.get("x0kind") == "exact":
                 x = np.linalg.solve(Amat, b)
-            S.alg = A_.ConjugateGradient(lambda v: Amat @ v, b, x, max_iter=mi, tol=0)
+            def Acg(v):
+                if sysd.get("interfere"):
+                    common.run_other_solvers(v.shape, v.dtype, stats)
+                return Amat @ v
+            S.alg = A_.ConjugateGradient(Acg, b, x, max_iter=mi, tol=0)
             S.site = "ConjugateGradient"
             S.solution = lambda: [S.alg.x]
             S.breakdown = lambda: bool(S.alg.not_positive_definite)
@@ -283,8 +299,25 @@ class StopWorld(World):
                 tau = np.full(n, tau)
             gd = 1 if sysd["gamma"] == "dual" else 0
             proxfc = sp.prox.L2Reg([m], 1, y=-y)
-            S.alg = A_.PrimalDualHybridGradient(proxfc, mk_prox([n]), lambda v: M @ v, lambda v: MH @ v,
-                                                x, u, tau, sigma, gamma_dual=gd, max_iter=mi, tol=0)
+            pg_ = mk_prox([n])
+            if sysd.get("pdhg_form") == "analysis_l1":
+                # min_x 1/2||x - b||^2 + lam ||M x||_1 : projection-type dual prox, biased primal prox
+                proxfc = sp.prox.Conj(sp.prox.L1Reg([m], lam))
+                bvec = (x0 + 1.0).astype(dt) if np.all(x0 == 0) else x0.astype(dt)
+                pg_ = sp.prox.L2Reg([n], 1, y=bvec)
+                x = np.zeros(n, dtype=dt)
+                gd = 0
+            def Apd(v):
+                if sysd.get("interfere"):
+                    common.run_other_solvers(v.shape, v.dtype, stats)
+                return M @ v
+
+            def AHpd(v):
+                if sysd.get("interfere"):
+                    common.run_other_solvers(v.shape, v.dtype, stats)
+                return MH @ v
+            S.alg = A_.PrimalDualHybridGradient(proxfc, pg_, Apd, AHpd, x, u, tau, sigma,
+                                                theta=sysd.get("theta", 1), gamma_dual=gd, max_iter=mi, tol=0)
             S.site = "PrimalDualHybridGradient"
             S.solution = lambda: [S.alg.x]
         elif kind == "altmin":
@@ -779,8 +812,8 @@ class StopWorld(World):
         res.nontrivial = st["u"] > 0 or len(plan["schedule"]) > 0
         res.fingerprint = codec.json_digest([
             sysd["kind"], sysd.get("solver"), sysd.get("app"), sysd["complex"], sysd["n"], sysd["m"], sysd["max_iter"],
-            sysd.get("gkind"), sysd.get("x0kind"), sysd.get("accelerate"), sysd.get("steps"), sysd.get("gamma"),
-            sysd.get("form"), sysd.get("show_pbar"), plan.get("style"),
+            sysd.get("gkind"), sysd.get("x0kind"), sysd.get("accelerate"), sysd.get("steps"), sysd.get("gamma"), sysd.get("theta"), sysd.get("pdhg_form"),
+            sysd.get("form"), sysd.get("show_pbar"), bool(sysd.get("interfere")), bool(sysd.get("iterprox")), plan.get("style"),
             [(f["seam"], f.get("kind", "jump")) for f in plan.get("faults", [])],
             common.compress_actions(acts)[:40],
         ])
@@ -809,6 +842,10 @@ class StopWorld(World):
             return p
         if sysd.get("show_pbar"):
             yield mod(show_pbar=False)
+        if sysd.get("interfere"):
+            yield mod(interfere=False)
+        if sysd.get("iterprox"):
+            yield mod(iterprox=False)
         if sysd["max_iter"] > 0:
             yield mod(max_iter=sysd["max_iter"] - 1)
         if sysd.get("complex") and sysd["kind"] in ("gm", "pdhg", "admm", "altmin", "lls", "l2c"):
